@@ -78,7 +78,7 @@ TG_PARTS = {
     "C09": ([], ["editTg", "appendTg"], ["C09_", "C12_tierwise_"]),
     "C10": ([], ["mergeTg"], ["C10_"]),
     "C13": (["addTier", "removeTier", "renameTier", "replaceTier"],
-            ["cropTg", "eraseTg", "spaceTg", "editTg", "appendTg", "mergeTg", "newTg"], ["C13_"]),
+            ["cropTg", "eraseTg", "spaceTg", "editTg", "appendTg", "mergeTg", "newTg", "saveTg", "validateTg"], ["C13_"]),
 }
 
 MC_INVARIANTS = ["NoFail", "RecvWF", "EmitInv"]
